@@ -17,7 +17,7 @@ REPO = os.environ.get("PYVC_REPO", "/repo")
 
 
 def run_native(scenario, witness, timeout=120):
-    timeout = timeout * 4   # wall-clock guard only; generous so that a loaded machine does not turn a replay into an error
+    timeout = timeout * 2   # wall-clock guard only; generous so that a loaded machine does not turn a replay into an error
     env = dict(os.environ)
     env["PYTHONPATH"] = REPO + os.pathsep + VERIF
     try:
